@@ -121,6 +121,7 @@ Definition cert_views (r : erun (R:=R)) : bool :=
   && leqb (map snd sv)
           (map (lval (label_sizes (map (fun v => map snd (vw_vars v)) views) (map (fun v => map plabel (vw_vars v)) views))) (map plabel sv))
   && forallb (fun v => forallb (fun kn => pn_mem kn (kvars r)) (vw_vars v)) views
+  && forallb (fun kn => key_mem (fst kn) (flat_map (@vw_vars R) views)) outp
   && repr_inv_b (map snd outp) outp (er_outv r)
   && forallb (fun e => closed sigma e) (er_outv r).
 
